@@ -4,6 +4,7 @@ import re
 
 from ..core import AnalysisError, norm
 from .common import (effects, paths_of, check_writers, arg_by_name, named_call_sites)
+from ..sim import check_reach
 
 
 def _eval(e, env):
@@ -35,13 +36,18 @@ def _eval(e, env):
         return True
     if isinstance(e, ast.IfExp):
         return _eval(e.body, env) if _eval(e.test, env) else _eval(e.orelse, env)
+    if isinstance(e, ast.Call) and isinstance(e.func, ast.Attribute) and not e.args and e.func.attr in ('isalpha', 'isdigit', 'isalnum', 'islower', 'isupper', 'lower', 'upper', 'isascii'):
+        v = _eval(e.func.value, env)
+        if isinstance(v, str):
+            return getattr(v, e.func.attr)()
     raise KeyError(norm(e))
 
 
 def run(ctx):
     repo = ctx.repo
     ctx.decided = ['C14.1 lexing agreement between displayed letters and the matcher\'s letter test', 'C14.2 same (id, generation) pair on both sides, shared radix/alphabet constants',
-                   'C14.3 connection names: displayed name is the name matched']
+                   'C14.3 connection names: displayed name is the name matched, names are never reused',
+                   'C14.4 a pattern selects exactly the messages on / creating / destroying the object; the bare form adds messages mentioning it']
     ctx.undecided = ['bijectivity / gap-freeness of the base-26 conversion for every index (arithmetic: needs induction or exhaustive execution)',
                      'selection semantics of the bare-object matcher (C05)']
     f_enc = repo.func('letter_id_generator.number_to_letter_id')
@@ -181,5 +187,71 @@ def run(ctx):
     f_mp = repo.func('MessagePattern.matches')
     ctx.check(any(a.text == 'self.conn_matcher.matches(message.obj.connection)' for p in paths_of(repo, f_mp, unroll=1) for a, v in p.decisions), 'C14.3', 'pattern:conn-of-target', f_mp.loc(),
               'a message pattern tests the connection of the message\'s target object')
+    # ---- C14.4 a label matcher selects the messages on / creating / destroying / mentioning the object ---------------------
+    f_mp = repo.func('MessagePattern.matches')
+    mpaths = paths_of(repo, f_mp, unroll=1, bool_returns=True)
+
+    def m_mp(a):
+        t = a.text
+        table = {'self.conn_matcher.matches(message.obj.connection)': 'conn', 'self.match_new': 'mnew', 'self.match_destroyed': 'mdest',
+                 'self.obj_matcher.matches(message.destroyed_obj)': 'objdest', 'self.obj_matcher.matches(message.obj)': 'objself',
+                 'self.name_matcher.matches(message.name)': 'name', 'self.args_matcher.matches(message.args)': 'args'}
+        if t in table:
+            return (table[t], True)
+        if t == 'message.destroyed_obj is None':
+            return ('dnone', True)
+        if t == 'message.destroyed_obj':
+            return ('dnone', False)
+        if re.match(r'^isinstance\(<elem0 of message\.args>, wl\.Arg\.Object\)$', t):
+            return ('arg_isobj', True)
+        if t == '<elem0 of message.args>.is_new':
+            return ('arg_isnew', True)
+        if t == 'self.obj_matcher.matches(<elem0 of message.args>.obj)':
+            return ('arg_obj', True)
+        return None
+    uni = ['conn', 'mnew', 'mdest', 'objdest', 'objself', 'name', 'args', 'dnone', 'arg_isobj', 'arg_isnew', 'arg_obj']
+
+    def expected(has_arg):
+        def ex(F):
+            created = has_arg and F['mnew'] and F['arg_isobj'] and F['arg_isnew'] and F['arg_obj']
+            destroyed = F['mdest'] and (not F['dnone']) and F['objdest']
+            on = F['objself'] and F['name'] and F['args']
+            return F['conn'] and (created or destroyed or on)
+        return ex
+    nmp = 0
+    for has_arg in (False, True):
+        sel = []
+        for p in mpaths:
+            iters = sum(1 for e in p.events if e.kind == 'loop-iter')
+            entered = any(e.kind in ('loop-iter', 'loop-exit', 'loop-break') for e in p.events)
+            if p.outcome[0] != 'return' or not isinstance(p.outcome[1], ast.Constant):
+                ctx.violation('C14.4', 'pattern:not-boolean', f_mp.loc(), 'MessagePattern.matches does not return a truth value on path %s' % p.describe()[:120])
+                continue
+            if has_arg == (iters >= 1) or not entered:
+                sel.append(p)
+        probs = check_reach(sel, lambda e: e.kind == 'return' and isinstance(e.value, ast.Constant) and e.value.value is True, m_mp, expected(has_arg), universe=uni)
+        nmp += len(sel)
+        ctx.check(not probs, 'C14.4', 'pattern:on-or-creates-or-destroys:%s' % ('with-argument' if has_arg else 'no-arguments'), f_mp.loc(),
+                  'a pattern selects a message iff the connection matches and the message is on the object (with name and arguments), creates it (.new) or destroys it (.destroyed)',
+                  'MessagePattern.matches returns %s in scenario %s' % ((probs[0][2], {k: v for k, v in probs[0][1].items()}) if probs else ('', '')))
+    ctx.floor('C14.4', nmp, 8, 'paths of MessagePattern.matches')
+    f_mpi = repo.func('MessagePattern.__init__')
+    for p in paths_of(repo, f_mpi):
+        st = {e.target: norm(e.value) for e in p.events if e.kind == 'store'}
+        ctx.check(st.get('self.match_new') == "self.name_matcher.matches('new') and self.args_matcher.matches(())" and
+                  st.get('self.match_destroyed') == "self.name_matcher.matches('destroyed') and self.args_matcher.matches(())", 'C14.4', 'pattern:new-destroyed-flags', f_mpi.loc(),
+                  '.new / .destroyed are recognised when the name part accepts that word and the argument part accepts no arguments', 'flags are %s' % {k: v for k, v in st.items() if 'match_' in k})
+    # the bare-object form: on the object, or mentioning it as an argument
+    f_pmp = repo.func('matcher._parse_message_pattern')
+    bare = [p for p in paths_of(repo, f_pmp, asserts='ignore') if p.outcome[0] == 'return' and norm(p.outcome[1]).startswith('MatcherList([MessagePattern(')]
+    ctx.floor('C14.4', len(bare), 1, 'bare-object path of _parse_message_pattern')
+    for p in bare:
+        t = norm(p.outcome[1])
+        want = ("MatcherList([MessagePattern(ConnectionMatcher(_parse_text_matcher(CONN)), _parse_obj_matcher(OBJ), AlwaysMatcher(True), AlwaysMatcher(True)), "
+                "MessagePattern(ConnectionMatcher(_parse_text_matcher(CONN)), AlwaysMatcher(True), AlwaysMatcher(True), ArgsMatcherList([ArgMatcher(AlwaysMatcher(True), ObjectArgValueMatcher(_parse_obj_matcher(OBJ)))], []))], [])")
+        m = re.match(r"^MatcherList\(\[MessagePattern\(ConnectionMatcher\(_parse_text_matcher\((.+?)\)\), _parse_obj_matcher\((.+?)\), ", t)
+        ok = bool(m) and t == want.replace('CONN', m.group(1)).replace('OBJ', m.group(2))
+        ctx.check(ok, 'C14.4', 'bare-object:self-or-argument', f_pmp.loc(), 'a bare object matcher is (messages on the object) or (messages with the object as an argument), both restricted to the connection',
+                  'bare object matcher is built as %s' % t[:300])
     return ('finite-domain evaluation of the character classes (encoder alphabet vs lexer), shared radix/alphabet constants of encoder and decoder, '
             'identity chains of the (id, generation) pair and of the connection name. Decided: %s. Undecided: %s' % ('; '.join(ctx.decided), '; '.join(ctx.undecided)))
